@@ -133,8 +133,8 @@ fn apply(u: &Universe, def: &mut AdtDef, kind: usize, src: &mut Src) -> Option<S
             None
         }
         6 => {
-            // representation attribute
-            if def.is_zero() {
+            // representation attribute (packed and align exclude each other)
+            if def.is_zero() && !def.reprs.iter().any(|r| r.contains("packed")) {
                 if let Some(r) = def.reprs.iter_mut().find(|r| r.starts_with("align(")) {
                     let old = r.clone();
                     *r = if old == "align(64)" { "align(32)".into() } else { "align(64)".into() };
@@ -340,7 +340,7 @@ pub fn add_align_pairs(u: &mut Universe, max: usize) {
     let orig_subjects = u.subjects.clone();
     let mut done = 0;
     for i in 0..n_orig {
-        if done >= max || !u.adts[i].is_zero() || u.adts[i].mutant_of.is_some() {
+        if done >= max || !u.adts[i].is_zero() || u.adts[i].mutant_of.is_some() || u.adts[i].reprs.iter().any(|r| r.contains("packed")) {
             continue;
         }
         let mut ids = vec![];
